@@ -104,12 +104,19 @@ pub fn gen_case(rng: &mut Rng, id: usize) -> Vec<String> {
         let form = if rng.chance(1, 8) { LenForm::Force16 } else { LenForm::Minimal };
         stream.extend(enc_frame(rng.chance(3, 4), if rng.chance(1, 10) { rng.below(8) as u8 } else { 0 }, opc, mask, &p, form));
     }
+    // `read(None)` means "no limit": a header that announces 2^63 bytes is then the caller's
+    // problem (the properties quantify over finite limits), so unlimited reads are only issued on
+    // streams without garbage
+    let mut garbage = false;
     match rng.below(8) {
         0 => {
             let n = rng.below(stream.len() + 1);
             stream.truncate(n);
         }
-        1 => stream.extend(rng.bytes(3)),
+        1 => {
+            stream.extend(rng.bytes(3));
+            garbage = true;
+        }
         2 => stream.extend([0x83u8, 0x00]), // reserved opcode
         _ => {}
     }
@@ -168,7 +175,7 @@ pub fn gen_case(rng: &mut Rng, id: usize) -> Vec<String> {
         let l = match rng.below(10) {
             0..=4 => format!(
                 "op fread max={}",
-                if rng.chance(1, 3) { format!("{}", *rng.pick(&[0usize, 1, 125, 126, 300, 65536])) } else { "none".into() }
+                if garbage || rng.chance(1, 3) { format!("{}", *rng.pick(&[0usize, 1, 125, 126, 300, 65536, 1 << 20])) } else { "none".into() }
             ),
             5 | 6 => format!("op fwrite frame {}", frame(rng)),
             7 => format!("op fsend frame {}", frame(rng)),
